@@ -285,6 +285,36 @@ def main(argv):
         return 2
 
 
+def _seed_worker(job):
+    """generate + run one derived seed; returns summaries only (cheap to send between processes)"""
+    pid, seed, s, tier, driver_ok = job
+    mod = importlib.import_module('props.' + pid.lower())
+    rng = random.Random('%s/%d/%d' % (pid, seed, s))
+    cases = list(mod.corpus()) if s == 0 and hasattr(mod, 'corpus') else []
+    cases += list(mod.generate(rng, tier))
+    got, model, oracle = run_cases(mod, cases, use_driver=driver_ok)
+    r = {'evaluations': 0, 'distinct': set(), 'hist': {}, 'samples': [], 'platform_fail': [],
+         'oracle_fail': [], 'corr_fail': []}
+    for c, g, m, o in zip(cases, got, model, oracle):
+        r['evaluations'] += 1
+        r['hist'][c.tag] = r['hist'].get(c.tag, 0) + 1
+        if not g.startswith('!'):
+            r['distinct'].add(hashlib.md5(('%s|%r' % (c.line, c.args)).encode('utf-8', 'replace')).hexdigest()[:16])
+        if len(r['samples']) < 6 and (r['evaluations'] % 97 == 1):
+            r['samples'].append({'op': c.line, 'args': repr(c.args)[:200], 'impl': g[:200], 'model': (m or '')[:200]})
+        kf = mod.known(c) if hasattr(mod, 'known') else None
+        c.extra = None
+        if o is not None and len(r['oracle_fail']) < 50:
+            r['oracle_fail'].append((c, g, m, o, kf))
+        if driver_ok and c.line is not None and not equivalent(mod, c, g, m):
+            if c.platform:
+                if len(r['platform_fail']) < 5:
+                    r['platform_fail'].append((c, g, m))
+            elif len(r['corr_fail']) < 50:
+                r['corr_fail'].append((c, g, m, kf))
+    return r
+
+
 def run_check(pid, tier, seed, t0):
     broken = []          # names of theorems / builds / correspondence ops that no longer check
     notes = []
@@ -345,31 +375,31 @@ def run_check(pid, tier, seed, t0):
     known_hit = {}
     known = load_known(pid)
     open_known = [e for e in known if e.get('status') == 'open']
-    for s in range(nseeds):
-        rng = random.Random('%s/%d/%d' % (pid, seed, s))
-        cases = list(mod.corpus()) if s == 0 and hasattr(mod, 'corpus') else []
-        cases += list(mod.generate(rng, tier))
-        got, model, oracle = run_cases(mod, cases, use_driver=driver_ok)
-        for c, g, m, o in zip(cases, got, model, oracle):
-            evaluations += 1
-            hist[c.tag] = hist.get(c.tag, 0) + 1
-            if not g.startswith('!'):
-                distinct.add((c.line, repr(c.args)))
-            if len(samples) < 6 and (evaluations % 97 == 1):
-                samples.append({'op': c.line, 'args': repr(c.args)[:200], 'impl': g[:200], 'model': (m or '')[:200]})
-            kf = mod.known(c) if hasattr(mod, 'known') else None
-            if o is not None:
-                if kf and any(e['id'] == kf for e in open_known):
-                    known_hit[kf] = known_hit.get(kf, 0) + 1
-                else:
-                    oracle_fail.append((c, g, m, o))
-            if driver_ok and c.line is not None and not equivalent(mod, c, g, m):
-                if c.platform:
-                    platform_fail.append((c, g, m))
-                elif kf and any(e['id'] == kf for e in open_known):
-                    known_hit[kf] = known_hit.get(kf, 0) + 1
-                else:
-                    corr_fail.append((c, g, m))
+    jobs = [(pid, seed, s, tier, driver_ok) for s in range(nseeds)]
+    if nseeds > 1:
+        import multiprocessing
+        with multiprocessing.Pool(min(nseeds, 8)) as pool:
+            results = pool.map(_seed_worker, jobs)
+    else:
+        results = [_seed_worker(j) for j in jobs]
+    open_ids = set(e['id'] for e in open_known)
+    for r in results:
+        evaluations += r['evaluations']
+        distinct |= r['distinct']
+        for k, v in r['hist'].items():
+            hist[k] = hist.get(k, 0) + v
+        samples += r['samples'][:max(0, 6 - len(samples))]
+        platform_fail += r['platform_fail']
+        for c, g, m, o, kf in r['oracle_fail']:
+            if kf and kf in open_ids:
+                known_hit[kf] = known_hit.get(kf, 0) + 1
+            else:
+                oracle_fail.append((c, g, m, o))
+        for c, g, m, kf in r['corr_fail']:
+            if kf and kf in open_ids:
+                known_hit[kf] = known_hit.get(kf, 0) + 1
+            else:
+                corr_fail.append((c, g, m))
     log('[%s] correspondence: %d cases, %d disagreements; oracle failures: %d' %
         (pid, evaluations, len(corr_fail), len(oracle_fail)))
 
